@@ -53,6 +53,9 @@ func funlock(db *DB) error {
 
 // mmap memory maps a DB's data file.
 func mmap(db *DB, sz int) error {
+	if ok, err := verifMap(db, sz); ok {
+		return err
+	}
 	// Map the data file to memory.
 	b, err := unix.Mmap(int(db.file.Fd()), 0, sz, syscall.PROT_READ, syscall.MAP_SHARED|db.MmapFlags)
 	if err != nil {
@@ -75,6 +78,9 @@ func mmap(db *DB, sz int) error {
 
 // munmap unmaps a DB's data file from memory.
 func munmap(db *DB) error {
+	if ok, err := verifUnmap(db); ok {
+		return err
+	}
 	// Ignore the unmap if we have no mapped data.
 	if db.dataref == nil {
 		return nil
